@@ -292,8 +292,15 @@ func (h *harness) scenarioCorrupt(pre *gateFS, preDump nodeDump) bool {
 	for i := 0; i < trials; i++ {
 		done, hit := h.corruptTrial(n, preDump)
 		fired = fired || hit
-		if done || r.Failed() || r.InfraErr != "" {
+		if r.Failed() || r.InfraErr != "" {
 			break
+		}
+		if done && i+1 < trials {
+			// a checksum-valid mutation was legitimately applied: go on with an untouched target
+			n.close()
+			if n, ok = h.openTarget(cloneDisk(pre.mem)); !ok {
+				return fired
+			}
 		}
 	}
 	return fired
@@ -316,7 +323,11 @@ func (h *harness) corruptTrial(n *node, preDump nodeDump) (done, fired bool) {
 	if tp.Chance(1, 4) {
 		fr.chunk = 1 + tp.Intn(300)
 	}
-	mode := h.pickMode()
+	// the importers' own validation is only reached without the cluster-level verification in front of it
+	mode := modeFull
+	if tp.Chance(1, 2) {
+		mode = modeDirect
+	}
 	r.Logf("corrupt stream=%d kind=%s sealed=%v len=%d mode=%s", idx, kind, sealed, len(mut), modeName(mode))
 	if sealed {
 		r.Fault("stream." + kind + ".resealed")
